@@ -26,6 +26,29 @@ def walk_alloc(prop, tier):
     return W.walk(prop, tier, "alloc", depth=3)
 
 
+def _fam_result(fr, sc):
+    return dict(summary=dict(name=fr.name, build=fr.build, events=fr.events, lines=fr.lines, decoded=fr.decoded,
+                             classes=fr.classes, types=fr.types, violations=fr.nviol,
+                             known_deviation_matches=fr.devs, wall_s=fr.wall_s),
+                states=fr.states, transitions=fr.events, traces=len(sc.units), events=fr.events,
+                distinct=fr.distinct_inputs, samples=[dict(family=fr.name, op=s) for s in fr.samples[:2]],
+                violations=fr.viol, devs=fr.devs)
+
+
+def cross(gen, name):
+    def run(prop, tier):
+        from . import tlc as T
+        sc = gen(tier)
+        fr = E.cross_build(name, sc, "std", "alloc", prop="C18", jobs=10, known=T.open_deviations())
+        return _fam_result(fr, sc)
+    return run
+
+
+def cli_run(prop, tier):
+    from . import cli
+    return cli.run_cli(prop, tier)
+
+
 PARSER_MC = [mc("MC_Parser", "MC_Parser.cfg", workers=6),
              mc("MC_Parser", "MC_Parser_cap.cfg", workers=6, tier="thorough")]
 
@@ -114,4 +137,46 @@ PLANS = {
         families=[fam("mtype", F.fam_mtype)],
         exhaustive="both",
         rule="all 64 armoring characters (and all other bytes) as first payload character x 5 sentence shapes x decode on/off"),
+    "C01": dict(
+        mc=PARSER_MC + [mc("MC_Parser", "NC_Parser_underflow.cfg", expect="NoFault", workers=4),
+                        mc("MC_Armor", "MC_Armor.cfg", workers=8),
+                        mc("MC_Armor", "NC_Armor_emptyfill.cfg", expect="ArmorInv"),
+                        mc("MC_Layouts", "MC_Layouts.cfg")],
+        builds=ALL3,
+        families=[fam("totality", F.fam_totality), fam("capacity", F.fam_capacity),
+                  fam("text", F.fam_text, builds=("none",), tier="thorough")],
+        custom=[dict(run=walk_std), dict(run=walk_none)],
+        rule="NoFault over all histories of the bounded parser model, UnarmorAlg fault-free on the bounded domain, every take of "
+             "every layout fault-free at its static offset (TLC); recorded on all three builds (overflow checks on): "
+             "history x fuzz-line product, unarmor at every length x fill, 64 types x every length, byte truncations",
+        assumptions=["termination is observed by watchdog only (all loops in the crate are bounded `for`s over the input)"]),
+    "C17": dict(
+        mc=[mc("MC_Twin", "MC_Twin.cfg"), mc("MC_Twin", "MC_Twin_cap.cfg"),
+            mc("MC_Twin", "NC_Twin_fragno.cfg", expect="TwinInv")] + PARSER_MC[:1],
+        families=[fam("twin", F.fam_twin, twin_merge=E.tag_twin_merge, need_classes=["reject_form", "reject_checksum", "single", "reject_seq_no", "deliver"])],
+        custom=[dict(run=walk_std)],
+        rule="TwinInv (2-safety by self-composition) over all histories of the bounded model; twin streams A / A-minus-removable "
+             "fed to two interleaved parser instances, observations of the common lines compared; every path of length <= D "
+             "replayed (a hidden state change shows up in every continuation)"),
+    "C18": dict(
+        mc=[mc("MC_Builds", "MC_Builds.cfg", workers=6), mc("MC_Builds", "NC_Builds_fragno.cfg", expect="Equiv"),
+            mc("MC_Parser", "MC_Parser_cap.cfg", workers=6)],
+        builds=ALL3,
+        families=[fam("capacity", F.fam_capacity), fam("randmsg", F.fam_random_messages, builds=("none", "alloc")),
+                  fam("frag", F.fam_frag, twin_merge=E.tag_twin_merge, builds=("none", "alloc")),
+                  fam("text", F.fam_text, builds=("none",), tier="thorough"),
+                  fam("varlen", F.fam_varlen, builds=("none", "alloc"))],
+        custom=[dict(run=cross(F.fam_capacity, "capacity")), dict(run=cross(F.fam_random_messages, "randmsg")),
+                dict(run=cross(F.fam_seq, "seq")), dict(run=cross(F.fam_grammar, "grammar")),
+                dict(run=walk_none), dict(run=walk_alloc)],
+        rule="Equiv over all histories of the three lock-step builds (negative control: number advanced before the append); each "
+             "build validated against the specification with its own capacities; std and alloc observations zipped and compared "
+             "operation by operation; capacity boundaries 383/384/385 bytes, 118/119/120 data bytes, 19/20/21 characters"),
+    "C20": dict(
+        mc=[mc("MC_Cli", "MC_Cli.cfg"), mc("MC_Cli", "NC_Cli_utf8.cfg", expect="CliSafety"),
+            mc("MC_Cli", "NC_Cli_utf8_live.cfg", expect="CliTerminates")],
+        custom=[dict(run=cli_run)],
+        rule="CliSafety and termination (liveness under weak fairness) over all streams of <= 4 lines of the CLI process model; the "
+             "real binary fed generated streams (valid, fragments, noise, invalid UTF-8, CR, empty lines, 100 kB lines, byte soup), "
+             "one event per input line judged by the trace specification"),
 }
